@@ -29,8 +29,8 @@ func c06rSigs() []c06rSig {
 			attrs:   func(d any) pcommon.Map { return d.(pprofile.Profiles).ResourceProfiles().At(0).Resource().Attributes() },
 			markRO:  func(d any) { d.(pprofile.Profiles).MarkReadOnly() },
 			isRO:    func(d any) bool { return d.(pprofile.Profiles).IsReadOnly() },
-			route: func(all []bool, sel []int, cb func(int, any) error) (func(any) error, bool, error) {
-				ids := c06rIDs(xpipeline.SignalProfiles, len(all))
+			route: func(all []bool, sel []int, cb func(int, any) error, later ...[]int) (func(any) error, bool, error) {
+				ids := c06rIDs(xpipeline.SignalProfiles, len(all)+2)
 				cm := map[pipeline.ID]xconsumer.Profiles{}
 				for i, m := range all {
 					i := i
@@ -41,9 +41,18 @@ func c06rSigs() []c06rSig {
 				for _, i := range sel {
 					s = append(s, ids[i])
 				}
-				c, err := NewProfilesRouter(cm).Consumer(s...)
+				rt := NewProfilesRouter(cm)
+				c, err := rt.Consumer(s...)
 				if err != nil {
 					return nil, false, err
+				}
+				// further routes requested from the SAME router after this one (the consumer returned above is kept and used later)
+				for _, l := range later {
+					var ls []pipeline.ID
+					for _, i := range l {
+						ls = append(ls, ids[i])
+					}
+					_, _ = rt.Consumer(ls...)
 				}
 				return func(d any) error { return c.ConsumeProfiles(context.Background(), d.(pprofile.Profiles)) }, c.Capabilities().MutatesData, nil
 			},
